@@ -9,18 +9,22 @@ CONSTANTS MaxSteps, MaxNew, NInit
 VARIABLES store, alias, snap, hist
 vars == <<store, alias, snap, hist>>
 
-K0 == NKey("0", 0)   K1 == NKey("1", 1)   K2 == NKey("2", 2)   Kk == SKey("k")   KL == NKey("-1", -1)
+K0 == NKey("0", 0)   K1 == NKey("1", 1)   K2 == NKey("2", 2)   Kk == SKey("k", 1)   KL == NKey("-1", -1)
 Keys == {K0, K1, K2, Kk}
 Vars == {"x", "y"}
 Other(x) == IF x = "x" THEN "y" ELSE "x"
 
 A(n) == Atom(n)
 M1(k, v) == MapOf(<<k>>, <<v>>)
+M3 == MapOf(<<SKey("m", 2), SKey("n", 3), SKey("o", 4)>>, <<A(1), A(2), A(3)>>)
 Inits == <<
   [x |-> List(<<List(<<A(1), A(2)>>), M1(Kk, A(3))>>),                         y |-> List(<<A(4), A(5)>>)],
-  [x |-> MapOf(<<Kk, SKey("m")>>, <<List(<<A(1), A(2)>>), M1(Kk, A(3))>>),     y |-> A(4)],
+  [x |-> MapOf(<<Kk, SKey("m", 2)>>, <<List(<<A(1), A(2)>>), M1(Kk, A(3))>>),     y |-> A(4)],
   [x |-> List(<<A(1), List(<<A(2), List(<<A(3), A(4)>>)>>)>>),                 y |-> M1(Kk, A(5))],
-  [x |-> MapOf(<<>>, <<>>),                                                    y |-> List(<<>>)] >>
+  [x |-> MapOf(<<>>, <<>>),                                                    y |-> List(<<>>)],
+  \* a 3-key map (a trie node with spare capacity after its growth) and the same map nested in a list:
+  \* the steps with the keys k, 0, 1, 2 ADD keys to it
+  [x |-> M3,                                                                   y |-> List(<<M3, A(7)>>)] >>
 
 \* paths worth trying on value v: every key at the top; below a valid first key every key; below an
 \* invalid one a single representative; one valid path of length 3 if there is one
